@@ -513,10 +513,13 @@ def gen_cases(tier, seed):
         cases.append({"spec": h, "op": {"op": "roll", "shift": -7, "axis": 0}, "stream": "huge", "huge": True})
         cases.append({"spec": h, "op": {"op": "expand_dims", "axis": 1}, "stream": "huge", "huge": True})
 
-    # GCXS keeps its own `-1` inference (GCXS.reshape); a shape whose compressed axis is short keeps indptr small
+    # GCXS has its own copy of the `-1` inference (GCXS.reshape; float division until commit 0bffb82): regression
+    # cases; a shape whose compressed axis is short keeps indptr small
     hg = dict(hs[3])
     hg["format"], hg["caxes"] = "gcxs", [0]
-    for t in ([-1], [-1, 3], [hs[3]["shape"][1], -1], [3, -1]):
+    # (targets of shape (n, 3) are left out: GCXS.reshape then allocates O(n) intermediates -> MemoryError, a
+    #  memory-proportionality matter of C16, not a value question)
+    for t in ([-1], [3, -1], [1, -1], [-1, 1, hs[3]["shape"][1]]):
         cases.append({"spec": hg, "op": {"op": "reshape", "shape": t, "api": "method"}, "stream": "huge", "huge": True})
     cases.append({"spec": hg, "op": {"op": "flatten"}, "stream": "huge", "huge": True})
     # which functions the other formats offer at all (AttributeError on the method = not offered)
@@ -655,10 +658,8 @@ def campaign(build, tier, seed, report, budget=1):
             kind, clause = "value", "result_not_canonical"
         elif code == 4:
             kind, clause = "representation", "model_differs_from_spec_in_domain"
-        elif code == 3 and c["spec"]["format"] == "gcxs" and c.get("huge") and op["op"] in ("reshape", "flatten"):
-            kind, clause = "value", "D12_gcxs_reshape_float_division"
         elif code == 3 and c["spec"]["format"] in ("gcxs", "dok") and len(c["spec"]["shape"]) == 0:
-            kind, clause = "value", "zero_dim_gcxs_dok_input(D22)"
+            kind, clause = "value", "zero_dim_gcxs_dok_input"
         elif code == 3:
             kind, clause = "value", None
         else:
